@@ -530,7 +530,8 @@ def _modes(model: Model, X: RuleResult):
     base_init = model.func(I1D, "BaseInterp1D.__init__")
     src = ast.unparse(base_init.node)
     xp = base_init.params()[1]
-    okm = ("self._xmin = torch.min(%s, dim=-1, keepdim=True)[0]" % xp in src) and ("self._xmax = torch.max(%s, dim=-1, keepdim=True)[0]" % xp in src)
+    from ..model import has_form
+    okm = has_form(base_init.node, "self._xmin = torch.min(%s, dim=-1, keepdim=True)[0]" % xp, "self._xmax = torch.max(%s, dim=-1, keepdim=True)[0]" % xp)
     msk = [s_ for s_ in own_nodes(call.node) if isinstance(s_, ast.Assign) and isinstance(s_.value, ast.Call) and ast.unparse(s_.value.func) == "torch.logical_and"]
     xqp = call.params()[1]
     okk = False
